@@ -596,6 +596,8 @@ void c12_case(Ctx& c, Rng& r) {
     if (r.chance(1, 8)) cb.identity_seed = ca.identity_seed;
     const auto diff = static_cast<std::uint8_t>(r.below(9));
     ca.handshake_pow_difficulty = cb.handshake_pow_difficulty = diff;
+    const bool rehandshake = r.chance(1, 2);
+    if (rehandshake) ca.handshake_cooldown = cb.handshake_cooldown = std::chrono::seconds(0);   // the second handshake is validated in full, not answered from the cool-down record
     PeerId ida = make_peer(r), idb = make_peer(r);
     if (r.chance(1, 8)) { idb = ida; idb[31] ^= 1; }
     Node A(ida, ca), B(idb, cb);
@@ -609,6 +611,27 @@ void c12_case(Ctx& c, Rng& r) {
     const auto ka = A.session_key(idb), kb = B.session_key(ida);
     if (!ka || !kb) { c.violation("C12:node:no-session-key", "{}"); return; }
     if (*ka != *kb) c.violation("C12:node:session-keys-differ", J().kv("seedA", *ca.identity_seed).kv("seedB", *cb.identity_seed).kv("ka", hx::hexs(*ka)).kv("kb", hx::hexs(*kb)).str());
+    // the same two identities handshake again later (reconnect), after none / one / both sides rotated their session
+    // key 0..3 times: accepting the handshake must again leave both on one key
+    if (rehandshake) {
+        const auto ra = r.below(4), rb = r.below(4);
+        for (std::uint64_t i = 0; i < ra; ++i) (void)A.rotate_session_key(idb);
+        for (std::uint64_t i = 0; i < rb; ++i) (void)B.rotate_session_key(ida);
+        const auto wa3 = A.generate_handshake_work(idb);
+        const auto wb3 = B.generate_handshake_work(ida);
+        if (wa3 && wb3) {
+            const bool okA3 = A.perform_handshake(idb, B.public_identity(), *wb3);
+            const bool okB3 = B.perform_handshake(ida, A.public_identity(), *wa3);
+            c.note("node.re-handshakes");
+            if (ra || rb) c.note("node.re-handshakes-after-rotation");
+            if (!okA3 || !okB3) c.violation("C12:node:valid-handshake-rejected", J().kv("okA", okA3).kv("okB", okB3).kv("second_handshake", true).str());
+            else {
+                const auto ka3 = A.session_key(idb), kb3 = B.session_key(ida);
+                if (!ka3 || !kb3) c.violation("C12:node:no-session-key", J().kv("second_handshake", true).str());
+                else if (*ka3 != *kb3) c.violation("C12:node:session-keys-differ", J().kv("second_handshake", true).kv("rotations_a", ra).kv("rotations_b", rb).str());
+            }
+        }
+    }
     // depends on both public keys: a different identity on one side gives another key
     Config ca2 = ca;
     ca2.identity_seed = *ca.identity_seed + 1 + static_cast<std::uint32_t>(r.below(1000));
